@@ -5,8 +5,8 @@ use educe::Educe;
 use core::cmp::Ordering;
 #[derive(Educe)]
 #[educe(PartialEq, Eq)]
-pub enum T { A() }
-pub fn values() -> Vec<T> { vec![T::A()] }
-pub fn show(x: &T) -> String { #[allow(unused_variables)] match x { T::A() => format!("A()") } }
-pub fn o_eq(a: &T, b: &T) -> bool { match (a, b) { (T::A(), T::A()) => true } }
+pub struct T { builder: A<0>, a: A<1>, #[educe(Eq(method = "m_eq"))] y: A<0> }
+pub fn values() -> Vec<T> { vec![T { builder: A(0), a: A(0), y: A(0) }, T { builder: A(0), a: A(0), y: A(1) }, T { builder: A(0), a: A(0), y: A(7) }, T { builder: A(0), a: A(1), y: A(0) }, T { builder: A(0), a: A(1), y: A(1) }, T { builder: A(0), a: A(1), y: A(7) }, T { builder: A(0), a: A(7), y: A(0) }, T { builder: A(0), a: A(7), y: A(1) }, T { builder: A(0), a: A(7), y: A(7) }, T { builder: A(1), a: A(0), y: A(0) }, T { builder: A(1), a: A(0), y: A(1) }, T { builder: A(1), a: A(0), y: A(7) }, T { builder: A(1), a: A(1), y: A(0) }, T { builder: A(1), a: A(1), y: A(1) }, T { builder: A(1), a: A(1), y: A(7) }, T { builder: A(1), a: A(7), y: A(0) }, T { builder: A(1), a: A(7), y: A(1) }, T { builder: A(1), a: A(7), y: A(7) }, T { builder: A(7), a: A(0), y: A(0) }, T { builder: A(7), a: A(0), y: A(1) }, T { builder: A(7), a: A(0), y: A(7) }, T { builder: A(7), a: A(1), y: A(0) }, T { builder: A(7), a: A(1), y: A(1) }, T { builder: A(7), a: A(1), y: A(7) }, T { builder: A(7), a: A(7), y: A(0) }, T { builder: A(7), a: A(7), y: A(1) }, T { builder: A(7), a: A(7), y: A(7) }] }
+pub fn show(x: &T) -> String { #[allow(unused_variables)] match x { T { builder: p0, a: p1, y: p2 } => format!("T({},{},{})", sv(p0), sv(p1), sv(p2)) } }
+pub fn o_eq(a: &T, b: &T) -> bool { match (a, b) { (T { builder: a0, a: a1, y: a2 }, T { builder: b0, a: b1, y: b2 }) => (a0 == b0) && (a1 == b1) && m_eq(a2, b2) } }
 pub fn run(out: &mut Out) { let vs = values(); for a in &vs { for b in &vs { let e = o_eq(a, b); out.check((a == b) == e, "eq_23", "eq", || format!("{} == {} expected {}", show(a), show(b), e)); out.check((a != b) == !e, "eq_23", "ne", || format!("{} != {} expected {}", show(a), show(b), !e)); } } }
